@@ -378,6 +378,12 @@ class Ctx:
     def prove(self, extra=()):
         a = audit(self.prop, extra)
         self.audit = a
+        if a["ok"] and self.tier == "thorough":
+            # independent re-check of the compiled theorem modules by Lean's external checker
+            ok, outs = leanchecker(["AcmedVerif.Props.%s" % m for m in a.get("modules", [])])
+            a["leanchecker"] = {"ok": ok, "modules": outs}
+            if not ok:
+                self.broke("proof", "leanchecker rejects a compiled module", {"leanchecker": outs})
         if not a["ok"]:
             detail = {"failed_build": a.get("failed_build", False), "bad": a.get("bad"),
                       "forbidden": a.get("forbidden"), "log": a.get("log", "")[-3000:],
@@ -415,6 +421,7 @@ class Ctx:
             "obligations": a["obligations"],
             "discharged": a["discharged"],
             "audit_modules": a.get("modules", []),
+            "leanchecker": a.get("leanchecker"),
             "checker_cmd": "lake build AcmedVerif.Props.%s* && lake env lean AcmedVerif/Audit/%s*.lean (axioms of every property theorem within {propext, Classical.choice, Quot.sound}; source grep for sorry/admit/axiom/native_decide/bv_decide/implemented_by/unsafe)" % (self.prop, self.prop),
             "trusted_base": trusted_base or [],
             "theorems": {k: v for k, v in a["theorems"].items()},
